@@ -475,7 +475,7 @@ class Normaliser:
             toks = self.strip_quals(toks, "struct")
             # N2: make fields public
             out = []
-            bo = next(i for i, t in enumerate(toks) if t.text == "{")
+            bo = next((i for i, t in enumerate(toks) if t.text == "{"), len(toks))     # tuple structs have no brace body
             for i, t in enumerate(toks):
                 if i > bo and t.kind == "id" and toks[i + 1].text == ":" and toks[i - 1].text in ("{", ","):
                     out += mk("pub")
